@@ -32,6 +32,13 @@ def g_real(lo=-1.5, hi=1.5):
     return g
 
 
+def g_real0(lo=-1.5, hi=1.5, p0=0.3):
+    """reals with an exact 0.0 now and then (a boundary value some densities treat by a separate formula)"""
+    def g(rng, shape):
+        return _fill(shape, lambda: 0.0 if rng.random() < p0 else rng.uniform(lo, hi))
+    return g
+
+
 def g_simplex():
     def g(rng, shape):
         assert len(shape) == 1
@@ -225,7 +232,7 @@ def coal_spec(model, tree, n=3, pieces=3, dates=None):
     elif model in ("skygrid", "linear", "softskygrid"):
         params += [("theta", ((pieces,), g_pos(0.5, 5.0)))]
     if model == "exponential":
-        params += [("growth", ((1,), g_real(0.1, 1.0)))]
+        params += [("growth", ((1,), g_real0(0.1, 1.0)))]
     if model == "pwexp":
         params += [("growth", ((pieces,), g_real(0.1, 1.0)))]
     cls = {"constant": "ConstantCoalescentModel", "exponential": "ExponentialCoalescentModel",
